@@ -114,7 +114,10 @@ fn history(out: &mut Out, rng: &mut Rng, consensus: &Consensus, idx: u64, honest
     intern_reset(true);
     let guard = ckb_systemtime::faketime();
     let last_n = if deep { *rng.pick(&[1u64, 2, 3]) } else { *rng.pick(&[1u64, 2, 3, 5, 10]) };
-    let n_peers = if competing || deep { 2 } else { rng.range(1, 3) as usize };
+    // lagging: two honest peers on one chain, the lower one proven first; the higher one is proven, then moves the store on through
+    // the child fast path; only then the lower one proves a header between the last committed proof and the stored tip
+    let lagging = idx % 8 == 1 && !competing && !deep;
+    let n_peers = if competing || deep || lagging { 2 } else { rng.range(1, 3) as usize };
     let epochs = rng.range(4, 20) as usize;
     let pbits = *rng.pick(&[6u32, 12, 24]);
     let plan = if rng.chance(2, 3) { legal_plan(rng, epochs, 2, 8, pbits) } else { flat_plan(epochs, rng.range(3, 9), rng.range(1, 30)) };
@@ -132,11 +135,12 @@ fn history(out: &mut Out, rng: &mut Rng, consensus: &Consensus, idx: u64, honest
     let mut c = Client::new(&chains[0], consensus, last_n, n_peers as u32);
     let store0 = store_term(&c);
     let mut sims: Vec<PeerSim> = (0..n_peers).map(|k| {
-        let on_fork = if competing || deep { k == 1 } else { !honest_only && rng.chance(1, 4) };
+        let on_fork = if lagging { false } else if competing || deep { k == 1 } else { !honest_only && rng.chance(1, 4) };
         let ch = if on_fork { 1 } else { 0 };
         let tip = chains[ch].tip();
         let h0 = if deep { if k == 0 { deep_height } else { tip } } else if competing { fork_at } else { rng.range(3, tip.min(3 + tip / 2)) };
-        PeerSim { id: PeerIndex::new(k + 1), chain: ch, height: h0, connected: false, honest: honest_only || competing || rng.chance(2, 3) }
+        let h0 = if lagging { let top = (chains[0].tip() / 2).max(8); if k == 0 { top } else { top - 2 } } else { h0 };
+        PeerSim { id: PeerIndex::new(k + 1), chain: ch, height: h0, connected: false, honest: honest_only || competing || lagging || rng.chance(2, 3) }
     }).collect();
     let mut now = T0 + 10_000;
     let steps = rng.range(6, 30);
@@ -152,13 +156,18 @@ fn history(out: &mut Out, rng: &mut Rng, consensus: &Consensus, idx: u64, honest
     let mut prev_td = c.storage.get_last_state().0;
     let mut prev_tip = c.storage.get_last_state().1.calc_header_hash();
 
-    let total_steps = steps + if honest_only { 30 } else { 0 };
+    let mut script: std::collections::VecDeque<(usize, u64, u64)> = if lagging {
+        vec![(1, 0, 0), (1, 4, 0), (1, 101, 0), (1, 101, 0), (0, 0, 0), (0, 4, 0), (0, 100, 0), (0, 100, 0), (0, 4, 1), (0, 4, 1), (1, 4, 3), (1, 2, 0), (1, 101, 0), (1, 101, 0)].into()
+    } else { Default::default() };
+    let total_steps = steps + script.len() as u64 + if honest_only { 30 } else { 0 };
     for step in 0..total_steps {
         if stopped { break; }
         let closing = step >= steps;
-        now += if closing { 500 } else if honest_only { rng.range(50, 1_200) } else { match rng.below(10) { 0 => 20_000, 1 if !honest_only => 61_000, 2 => 8_100, 3 => 31_000, 4 => 45_000, _ => rng.range(50, 4_000) } };
+        now += if closing || !script.is_empty() { 500 } else if honest_only { rng.range(50, 1_200) } else { match rng.below(10) { 0 => 20_000, 1 if !honest_only => 61_000, 2 => 8_100, 3 => 31_000, 4 => 45_000, _ => rng.range(50, 4_000) } };
         guard.set_faketime(now);
         let mut k = rng.below(n_peers as u64) as usize;
+        let forced = script.pop_front();
+        if let Some((fk, _, _)) = forced { k = fk; }
         if closing {
             if let Some(j) = (0..n_peers).find(|j| sims[*j].connected && c.state(sims[*j].id).map(|s| s.get_last_state().is_none()).unwrap_or(false)) { k = j; }
         }
@@ -175,7 +184,7 @@ fn history(out: &mut Out, rng: &mut Rng, consensus: &Consensus, idx: u64, honest
         let mut actor = k;
         let before_prove = obs_prove(&before_state).to_coq();
         // choose an event
-        let choice = if closing && sims[k].connected && c.state(pid).map(|s| s.get_last_state().is_none()).unwrap_or(false) { 4 } else if closing {
+        let choice = if let Some((_, fc, _)) = forced { fc } else if closing && sims[k].connected && c.state(pid).map(|s| s.get_last_state().is_none()).unwrap_or(false) { 4 } else if closing {
             // drain: answer every outstanding request, tick in between
             if let Some(j) = (0..n_peers).find(|j| sims[*j].connected && c.state(sims[*j].id).map(|s| s.get_prove_request().is_some()).unwrap_or(false)) { 100 + j as u64 }
             else if (0..n_peers).all(|j| !sims[j].connected || c.state(sims[j].id).map(|s| match (s.get_prove_state(), s.get_last_state()) { (Some(ps), Some(ls)) => ps.is_same_as(ls.as_ref()), _ => false }).unwrap_or(true)) { break }
@@ -218,7 +227,7 @@ fn history(out: &mut Out, rng: &mut Rng, consensus: &Consensus, idx: u64, honest
                 // announce a last state
                 let ch = chains[sims[k].chain].clone();
                 let first_announce = c.state(pid).map(|s| s.get_last_state().is_none()).unwrap_or(true);
-                let grow = if closing || deep || (competing && first_announce) { 0 } else if competing { 1 } else { match rng.below(5) { 0 => 0, 1 | 2 => 1, 3 => rng.range(2, last_n + 2), _ => rng.range(2, 30) } };
+                let grow = if let Some((_, _, fg)) = forced { fg } else if closing || deep || (competing && first_announce) { 0 } else if competing { 1 } else { match rng.below(5) { 0 => 0, 1 | 2 => 1, 3 => rng.range(2, last_n + 2), _ => rng.range(2, 30) } };
                 sims[k].height = (sims[k].height + grow).min(ch.tip());
                 let mut what = "announce";
                 let msg_vh: packed::VerifiableHeader = if sims[k].honest || rng.chance(2, 3) {
